@@ -154,6 +154,21 @@ func (e *StdEvents) Label(in ssa.Instruction) []string {
 	}
 	n := qualFuncName(f)
 	ls = append(ls, "call:"+n)
+	// setter inlining: g(recv, .., const, ..) where g stores that parameter
+	// into a field counts as the constant store
+	if inSmtp(f) {
+		for _, si := range setterInfo(f) {
+			if si.param < len(cc.Args) {
+				if c, ok := stripConv(cc.Args[si.param]).(*ssa.Const); ok {
+					if c.Value == nil {
+						ls = append(ls, "st:"+si.field+"=nil")
+					} else {
+						ls = append(ls, "st:"+si.field+"="+c.Value.ExactString())
+					}
+				}
+			}
+		}
+	}
 	if n == "(*Conn).writeResponse" {
 		ls = append(ls, "reply")
 		if code, ok := constInt(cc.Args[1]); ok {
@@ -241,4 +256,37 @@ func knownNonNilErr(v ssa.Value) bool {
 		}
 	}
 	return n == 1 && good == 1
+}
+
+type setter struct {
+	field string
+	param int
+}
+
+var setterCache = map[*ssa.Function][]setter{}
+
+// setterInfo: fields that small function g certainly stores from one of its
+// parameters (e.g. setSession).
+func setterInfo(g *ssa.Function) []setter {
+	if r, ok := setterCache[g]; ok {
+		return r
+	}
+	var out []setter
+	n := 0
+	allInstrs(g, func(in ssa.Instruction) { n++ })
+	if n <= 16 {
+		allInstrs(g, func(in ssa.Instruction) {
+			if fld, base, val := storedField(in); fld != nil {
+				if p, ok := val.(*ssa.Parameter); ok {
+					for i, q := range g.Params {
+						if q == p {
+							out = append(out, setter{fieldDesc(fld, base), i})
+						}
+					}
+				}
+			}
+		})
+	}
+	setterCache[g] = out
+	return out
 }
